@@ -106,19 +106,26 @@ class Interp:
         self.lines = []
         self.depth = 0
         self.top = None
+        self.frames = []
 
     # -- values -------------------------------------------------------------
     @staticmethod
     def truth(v):
         if v == NULL:
             return False
-        if v[0] == "node":
+        if v[0] in ("node", "ptr"):
             return True
         if v[0] == "int":
             return v[1] != 0
         raise AnalysisBroken("shape: truth value of %r is not modelled" % (v,))
 
     def _ptr_eq(self, a, b):
+        if a[0] == "ptr" or b[0] == "ptr":
+            if a[0] == "ptr" and b[0] == "ptr":
+                return a == b
+            other = b if a[0] == "ptr" else a
+            if other == NULL or other == ("int", 0):
+                return False
         for x in (a, b):
             if x[0] not in ("null", "node") and not (x[0] == "int" and x[1] == 0):
                 raise AnalysisBroken("shape: pointer comparison of %r and %r is not modelled" % (a, b))
@@ -140,6 +147,10 @@ class Interp:
             p = self.ev(e["e"], fr)
             if p == ("rootp",):
                 return ("root",)
+            if p[0] == "ptr":
+                return p[1]
+            if p == NULL:
+                raise Violation("line %d: NULL pointer dereferenced" % line(e), line(e))
             raise AnalysisBroken("shape: store through %r" % (p,))
         if k == "member":
             if e["arrow"]:
@@ -153,15 +164,24 @@ class Interp:
             if inner[0] == "fld" and inner[2] in self.dom.embedded:
                 return ("fld", inner[1], e["field"])
             raise AnalysisBroken("shape: line %d: nested member %s" % (line(e), e["field"]))
+        if k == "idx" and hasattr(self.dom, "index"):
+            return self.dom.index(self, self.ev(e["base"], fr), self.ev(e["i"], fr), line(e))
         raise AnalysisBroken("shape: line %d: lvalue kind %s" % (line(e), k))
 
     def load(self, loc, fr, e=None):
+        if loc[0] == "frame":
+            for f_ in self.frames:
+                if id(f_) == loc[1]:
+                    return f_.env[loc[2]]
+            raise AnalysisBroken("shape: dangling pointer to a local")
         if loc[0] == "var":
             if loc[1] not in fr.env:
                 raise AnalysisBroken("shape: %s read before assignment in %s" % (loc[1], fr.fn.name))
             return fr.env[loc[1]]
         if loc[0] == "root":
             return self.dom.read_root(self)
+        if loc[0] == "slot":
+            return self.dom.read_slot(self, loc, line(e) if e else 0)
         if loc[0] == "fld":
             if loc[2] in self.dom.embedded:
                 return ("emb", loc[1], loc[2])
@@ -169,10 +189,18 @@ class Interp:
         raise AnalysisBroken("shape: load %r" % (loc,))
 
     def store(self, loc, v, fr, e=None):
+        if loc[0] == "frame":
+            for f_ in self.frames:
+                if id(f_) == loc[1]:
+                    f_.env[loc[2]] = v
+                    return
+            raise AnalysisBroken("shape: dangling pointer to a local")
         if loc[0] == "var":
             fr.env[loc[1]] = v
         elif loc[0] == "root":
             self.dom.write_root(self, v, line(e) if e else 0)
+        elif loc[0] == "slot":
+            self.dom.write_slot(self, loc, v, line(e) if e else 0)
         elif loc[0] == "fld":
             self.dom.write_field(self, loc[1], loc[2], v, line(e) if e else 0)
         else:
@@ -212,10 +240,19 @@ class Interp:
             return self.ev(e["e"], fr)
         if k == "member":
             return self.load(self.lval(e, fr), fr, e)
+        if k == "idx":
+            return self.load(self.lval(e, fr), fr, e)
         if k == "un":
             op = e["op"]
             if op == "*":
                 return self.load(self.lval(e, fr), fr, e)
+            if op == "&":
+                loc = self.lval(e["e"], fr)
+                if loc == ("root",):
+                    return ("rootp",)
+                if loc[0] == "var":
+                    return ("ptr", ("frame", id(fr), loc[1]))
+                return ("ptr", loc)
             if op in ("pre++", "post++", "pre--", "post--"):
                 loc = self.lval(e["e"], fr)
                 old = self.load(loc, fr, e)
@@ -264,6 +301,8 @@ class Interp:
                 if op in ("+", "-", "*", "&", "|", "^"):
                     return ("anyint",)
                 raise AnalysisBroken("shape: line %d: comparison of a widened counter" % line(e))
+            if (l[0] != "int" or r[0] != "int") and hasattr(self.dom, "arith"):
+                return self.dom.arith(self, op, l, r, line(e))
             if l[0] != "int" or r[0] != "int":
                 raise AnalysisBroken("shape: line %d: %s on %r, %r" % (line(e), op, l, r))
             a, b = l[1], r[1]
@@ -334,10 +373,12 @@ class Interp:
         if top:
             self.top = fr
         back = set(fn.back_edges())
-        if back and not top:
+        if back and not top and not hasattr(self.dom, "at_loop_head"):
             raise AnalysisBroken("shape: helper %s contains a loop" % fn.name)
         bid = fn.entry
+        pending = None
         self.depth += 1
+        self.frames.append(fr)
         try:
             while True:
                 b = fn.blocks[bid]
@@ -371,11 +412,25 @@ class Interp:
                     cval = fr.vals.get(_vkey(cs))
                     if cval is None:
                         cval = self.ev(cs, fr)
-                    want = "true" if self.truth(cval) else "false"
                     nxt = None
-                    for (to, on) in b.succs:
-                        if on == want:
-                            nxt = to
+                    if any(on.startswith("case:") or on == "default" for (to, on) in b.succs):
+                        if cval[0] != "int":
+                            raise AnalysisBroken("shape: %s: switch on %r" % (fn.name, cval))
+                        want = "case:%d" % cval[1]
+                        for (to, on) in b.succs:
+                            if on == want:
+                                nxt = to
+                        if nxt is None:
+                            for (to, on) in b.succs:
+                                if on == "default":
+                                    nxt = to
+                        if nxt is None:
+                            raise AnalysisBroken("shape: %s: switch value %d has no case and no default" % (fn.name, cval[1]))
+                    else:
+                        want = "true" if self.truth(cval) else "false"
+                        for (to, on) in b.succs:
+                            if on == want:
+                                nxt = to
                     if nxt is None:
                         raise AnalysisBroken("shape: %s: no %s successor of block %d" % (fn.name, want, bid))
                 if (bid, nxt) in back:
@@ -383,10 +438,35 @@ class Interp:
                         if not self.dom.at_loop_head(self, fr, nxt):
                             raise PathEnd("subsumed", None)
                     else:
+                        # induction: the path ends here only if the loop really goes round again; a loop whose condition now
+                        # fails (a `done` flag, `node != NULL && !stop`) simply leaves and is checked at its return
+                        pending = [body for (h, body) in fn.loops() if h == nxt]
+                        pending = pending[0] if pending else set()
+                elif pending is not None:
+                    if nxt not in pending:
+                        pending = None
+                    elif not _condition_block(fn.blocks[nxt]):
                         raise PathEnd("backedge", None)
+                if pending is not None and (bid, nxt) in back and not _condition_block(fn.blocks[nxt]):
+                    raise PathEnd("backedge", None)
                 bid = nxt
         finally:
             self.depth -= 1
+            self.frames.pop()
+
+
+def _condition_block(b):
+    """A block that only evaluates (part of) a loop condition: it branches and its statements have no side effect."""
+    from .ir import walk
+    if len(b.succs) < 2:
+        return False
+    for s_ in b.stmts:
+        for n in walk(s_, elsewhere=True):
+            if n["k"] in ("asg", "decl", "ret") or (n["k"] == "un" and ("++" in n["op"] or "--" in n["op"])):
+                return False
+            if n["k"] == "call" and n.get("callee") != "__builtin_expect":
+                return False
+    return True
 
 
 def explore(unit, fn, make_domain, max_paths=20000):
